@@ -1079,6 +1079,12 @@ func genGeom(t *rapid.T, depth int) (orb.Geometry, string) {
 var sharedStrings = []string{"", "a", "b", "1", "true", "null", "[1]", "0"}
 
 func genString(t *rapid.T, label string) string {
+	if rapid.IntRange(0, 15).Draw(t, label+"vocab") == 0 {
+		if rapid.Bool().Draw(t, label+"vk") {
+			return rapid.SampledFrom(vocabValues).Draw(t, label)
+		}
+		return rapid.SampledFrom(vocabKeys).Draw(t, label)
+	}
 	switch rapid.IntRange(0, 9).Draw(t, label+"k") {
 	case 0, 1, 2, 3:
 		return rapid.SampledFrom(sharedStrings).Draw(t, label)
@@ -1216,7 +1222,19 @@ func genVal(t *rapid.T, depth int) Val {
 	}
 }
 
+// class M3: the domain's own vocabulary and type-sniffable shapes, mixed into keys, string values
+// and layer names at a few percent. The oracle is unchanged: a key is just a key, a string just a string.
+var vocabKeys = []string{"id", "id", "id", "ID", "Id", "type", "geometry", "properties", "bbox", "name", "extent", "version", "keys", "values",
+	"tags", "features", "layer", "layers", "$id", "_id", "fid", "osm_id", "", "coordinates", "Feature"}
+
+var vocabValues = []string{"7", "007", "-1", "0", "1e3", "+5", "0x10", " 7", "7 ", "1.0", "18446744073709551615", "9223372036854775808", "NaN", "null", "true", "false",
+	"507f1f77bcf86cd799439011", "507F1F77BCF86CD799439011", "123e4567-e89b-12d3-a456-426614174000", "2026-10-04T00:00:00Z", "2026-10-04",
+	"Feature", "Point", "Polygon", "GeometryCollection", "id", "{}", "[]", "\"7\""}
+
 func genKey(t *rapid.T) string {
+	if rapid.IntRange(0, 11).Draw(t, "keyvocab") == 0 {
+		return rapid.SampledFrom(vocabKeys).Draw(t, "key")
+	}
 	if rapid.IntRange(0, 5).Draw(t, "keyk") == 0 {
 		return genString(t, "key")
 	}
